@@ -190,7 +190,7 @@ def specStr (a : Gen.AccRow) (st : Decode.Stream) (exploreUpTo : Nat) : String :
   let bjs := match bj with
     | [] => "-"
     | _ => "~".intercalate ((bj.take 8).map fun (m : String) => m.replace " " "_")
-  s!"lazy={boolStr v.lazy} first={first} explore={v.explored} blockjobs={bj.length} {bjs}"
+  s!"lazy={boolStr v.lazy} first={first} explore={v.explored} skip={BlockJobs.skipCount st.ops} blockjobs={bj.length} {bjs}"
 
 def handle : List String → Option String
   | "rsintersects" :: toks => do
